@@ -156,6 +156,12 @@ def judge(chk, sc, o):
                 if p in ('C01', 'C02'):
                     chk.violation('completes_only_if_correct', case, {'clause': c, 'detail': d, 'injected': inj},
                                   'a call that returns after a worker death returns complete and correct results', input_class='death_wrong_result')
+                elif p == 'C11' and c in ('exit_results_conserved', 'exit_results_account_for_every_task'):
+                    # the victim died inside (or before) its worker_exit: its exit result was never delivered, so the call may not
+                    # complete as if nothing had happened ("completes correctly when every result had already been delivered")
+                    chk.violation('completes_only_if_exit_results_complete', case, {'clause': c, 'detail': d, 'injected': inj},
+                                  'a call that returns after a worker death returns complete results, exit results included',
+                                  input_class='death_exit_result_lost')
             cls = 'completed'
         if last.get('t1') is not None and last['t1'] - inj['t'] > BOUND:
             chk.violation('death_detected_promptly', case, {'kill_at': inj['t'], 'call_ended_at': last['t1']}, f'within {BOUND} virtual seconds', input_class='death_latency')
@@ -266,6 +272,14 @@ def run(chk):
         cls = judge(chk, sc, o)
         chk.count('corpus (minimised past failures, run first)', key=key_of(sc) + str(sc.get('inject')), nontrivial=True, sample={'scenario': sc, 'outcome': cls})
     bases = base_scenarios(rng, 7 if chk.tier == 'quick' else 84)
+    # a worker_exit that takes a while on one worker: the crash points inside it and between its return and the delivery of its
+    # result (the exit results of a call that then completes must be complete)
+    for _ in range(1 if chk.tier == 'quick' else 6):
+        nj = rng.choice([2, 3])
+        bases.append({'seed': rng.randint(0, 10 ** 6), 'pool': {'n_jobs': nj, 'start_method': 'fork'},
+                      'ops': [{'op': rng.choice(['map', 'map_unordered', 'imap']), 'n': rng.randint(4, 8), 'chunk_size': 1, 'exit': True,
+                               'init': rng.random() < .5, 'exit_dur': {'kind': 'map', 'map': {str(rng.randrange(nj)): rng.choice([0.3, 1.0])}, 'default': 0.0},
+                               'dur': {'kind': 'hash', 'salt': rng.randint(0, 99), 'unit': 0.01}}]})
     phases = ['queued', 'pill', 'task', 'init', 'announced', 'resultsent']
     handover_model = dict(zip(phases, drv.run(['handover phase=%s' % p for p in phases])))
     chk.notes['handover_model'] = handover_model
